@@ -69,7 +69,8 @@ def run_py(cfg, hist) -> List[Any]:
             # "snap1": the machine's counter has already moved one cycle past the last tick (as between two steps)
             emu.cycle_count = cyc + (1 if kind == "snap1" else 0)
             emu.save_snapshot(path)
-            emu = _mk_py(mti, sti, enabled)
+            # the machine the bundle is loaded into was built with other periods: everything about the timers must come from the bundle
+            emu = _mk_py(mti * 2 + 3, sti * 3 + 1, enabled)
             with contextlib.redirect_stdout(io.StringIO()):
                 emu.load_snapshot(path)
             out.append({"next_mti": emu._scheduler.next_mti, "next_sti": emu._scheduler.next_sti, "cycle": cyc})
